@@ -9,7 +9,7 @@ open Gen
 theorem C04_gen_obligations :
     display_select ≠ .onSelf ∧ display_agg ≠ .onSelf ∧ display_withColumns ≠ .onSelf ∧
     display_withColumnRenamed ≠ .onSelf ∧ normalizeColsCopies = true ∧ normalizeColCopies = true ∧
-    copyIsFresh = true ∧ groupKeepsCopy = true := by decide
+    copyIsFresh = true ∧ groupKeepsCopy = true ∧ constructorsOwnTheirState = true ∧ addCtesOwnsExpression = true := by decide
 
 theorem namer_target_ne (n : Namer) : n.target ≠ .onSelf := by
   cases n <;> simp [Namer.target] <;> decide
